@@ -25,4 +25,9 @@ PROFILES = [
     S.profile(min_tasks=2, p_resources=100, task_constraints=(0, 1), optional_rules=(0, 0), resource_constraints=(0, 0), horizon=(2, 6), p_work_amount=40, p_dynamic=25, p_delay=25, p_cumulative_in_select=12),
     S.profile(min_tasks=2, p_resources=100, task_constraints=(0, 2), optional_rules=(0, 1), resource_constraints=(0, 1), buffers=(0, 1), p_work_amount=30),
 ]
+PROFILES.append(
+    # a worker required directly by a task and listed again in a selection of the same task (refused by the library, or bound)
+    S.profile(min_tasks=2, max_tasks=3, p_resources=100, n_workers=(2, 3), p_select=90, p_cumulative=0, p_double_require=100, task_constraints=(0, 1), optional_rules=(0, 0),
+              resource_constraints=(0, 0), horizon=(2, 5), p_optional=15, p_work_amount=10, p_dynamic=5, p_delay=5)
+)
 prop, run_shard, replay = _sound.make(ID, FAMILIES, "C02.soundness", PROFILES, 80, 900)
